@@ -111,3 +111,7 @@ V('C08', 'alter-volatility-keeps-compiled-body', 'edb/schema/functions.py', 'edb
             )''', '''            self.set_attribute_value('nativecode', nativecode)''', 'C08.R5', 'body-recompiled')
 V('C08', 'abort-rewrite-loses-tx-action', 'edb/server/compiler/ddl.py', 'edb.server.compiler.ddl._abort_migration_rewrite',
   '        tx_action = tx_query.action\n', '        tx_action = None\n', 'C08.R5', '_abort_migration_rewrite:tx_action-forwarded')
+V('C08', 'sql-dml-returning-loses-modifications', 'edb/server/compiler/sql.py', 'edb.server.compiler.sql._compile_sql',
+  '        if isinstance(stmt, pgast.DMLQuery):\n            unit.capabilities |= enums.Capability.MODIFICATIONS\n', '        if isinstance(stmt, pgast.DMLQuery) and not stmt.returning_list:\n            unit.capabilities |= enums.Capability.MODIFICATIONS\n', 'C08.R6', '_compile_sql:')
+V('C08', 'declared-volatile-never-checked', 'edb/schema/functions.py', 'edb.schema.functions.FunctionCommand.compile_this_function',
+  '        if spec_volatility is not None and spec_volatility < ir.volatility:', '        if (spec_volatility is not None and not spec_volatility.is_volatile()\n                and spec_volatility < ir.volatility):', 'C08.R6', 'declared-below-inferred-rejected')
